@@ -10,7 +10,10 @@
     executes that assignment first), `np.pi` is the parameter `pi`, the float literal `0.5` the parameter `c0p5`
     (instantiated with the carrier's `1/2`, which is what the model writes);
   * `self.chisq_trans(...)` inside the closures is the parameter `chisq_trans` (any function `f`): the theorems show which
-    list it receives — MultiNest / PolyChord copy the first `len(fitting_parameters)` entries of the cube;
+    list it receives — MultiNest / PolyChord copy the first `len(fitting_parameters)` entries of the cube.  The closures
+    are tied twice: at any NaN-free carrier `α` (`src_*_loglike`), and at the NaN-aware carrier `Option α` of `chisq_trans`
+    below (`src_*_loglike_nan`: a NaN chi-square gives a NaN log-likelihood through the closure's own `-… - 0.5*chi_t`;
+    `src_loglike_nan` / `src_loglike_chain*`: closure ∘ regenerated `chisq_trans` = the model's `loglike`, NaN included);
   * `chisq_trans` itself: the binned forward model (`self._binner.bin_model(self._model.model(wngrid=obs_bins))[1]`) is the
     parameter `final_model`, whether evaluating it raises `InvalidModelException` the Bool parameter
     `raised_InvalidModelException`, `np.isnan` the parameter `isnan`, `np.nan` the parameter `np_nan`.  The model speaks
@@ -86,6 +89,77 @@ theorem src_chisq_invalid (obs sig : List α) (m wn : List (Option α)) :
     Gen.SrcC06.chisq_trans (α := Option α) (datastd := sig.map some) (final_model := m) (isnan := Option.isNone)
         (np_nan := none) (raised_InvalidModelException := true) (spectrum := obs.map some) (wavenumberGrid := wn)
       = valOpt (chisq obs sig .invalid) := rfl
+
+/-! ## the log-likelihood closures at the NaN-aware carrier
+
+The same regenerated closures, instantiated at `Option α` (`none` = NaN) with the NaN-propagating arithmetic of
+`Proofs/C06SrcLemmas.lean` (the carrier `chisq_trans` is tied at): observation / error bars / `np.pi` / `0.5` are numbers
+(`some`), `self.chisq_trans(...)` is any function into possibly-NaN values.  The result is NaN exactly when the chi-square
+is, and otherwise the number of the NaN-free ties above. -/
+
+/-- `nestle_loglike(params)` when `chisq_trans` may return NaN -/
+theorem src_nestle_loglike_nan (pi : α) (f : List (Option α) → List (Option α) → List (Option α) → Option α)
+    (theta : List (Option α)) (obs sig : List α) :
+    Gen.SrcC06.nestle_loglike (α := Option α) theta (obs.map some) (sig.map some) (c0p5 := some (1 / 2))
+        (chisq_trans := f) (pi := some pi)
+      = (f theta (obs.map some) (sig.map some)).map (fun c => -(normTerm pi sig) - (1 / 2) * c) := by
+  unfold Gen.SrcC06.nestle_loglike
+  dsimp only
+  rw [normTerm_some]
+  exact loglike_nan _ _ _
+
+/-- `multinest_loglike(cube, ndim, nparams)` when `chisq_trans` may return NaN -/
+theorem src_multinest_loglike_nan (pi : α) (f : List (Option α) → List (Option α) → List (Option α) → Option α)
+    (cube : List (Option α)) (obs sig : List α) (nfit : Nat) (h : nfit ≤ cube.length) :
+    Gen.SrcC06.multinest_loglike (α := Option α) cube nfit (c0p5 := some (1 / 2)) (chisq_trans := f)
+        (errorBar := sig.map some) (pi := some pi) (spectrum := obs.map some)
+      = (f (cube.take nfit) (obs.map some) (sig.map some)).map (fun c => -(normTerm pi sig) - (1 / 2) * c) := by
+  unfold Gen.SrcC06.multinest_loglike
+  dsimp only
+  rw [normTerm_some, map_getD_range _ _ _ h]
+  exact loglike_nan _ _ _
+
+/-- `polychord_loglike(cube)` when `chisq_trans` may return NaN: `(loglike, [0.0])` -/
+theorem src_polychord_loglike_nan (pi : α) (f : List (Option α) → List (Option α) → List (Option α) → Option α)
+    (cube : List (Option α)) (obs sig : List α) (nfit : Nat) (h : nfit ≤ cube.length) :
+    Gen.SrcC06.polychord_loglike (α := Option α) cube (obs.map some) (sig.map some) nfit (c0p5 := some (1 / 2))
+        (chisq_trans := f) (pi := some pi)
+      = ((f (cube.take nfit) (obs.map some) (sig.map some)).map (fun c => -(normTerm pi sig) - (1 / 2) * c),
+          [some 0]) := by
+  unfold Gen.SrcC06.polychord_loglike
+  dsimp only
+  rw [normTerm_some, map_getD_range _ _ _ h, loglike_nan]
+  rfl
+
+/-- the model's `loglike`, finite or not, is the translated closure applied to the chi-square the model computes: a NaN
+    chi-square gives a NaN log-likelihood by the closure's own arithmetic -/
+theorem src_loglike_nan (pi : α) (obs sig : List α) (theta : List (Option α)) (out : ModelOut α) :
+    valOpt (loglike pi obs sig out)
+      = Gen.SrcC06.nestle_loglike (α := Option α) theta (obs.map some) (sig.map some) (c0p5 := some (1 / 2))
+          (chisq_trans := fun _ _ _ => valOpt (chisq obs sig out)) (pi := some pi) := by
+  rw [src_nestle_loglike_nan]
+  unfold loglike
+  cases chisq obs sig out <;> rfl
+
+/-- the closure calling the regenerated `chisq_trans` (which reads `datastd` from its argument and the observed spectrum
+    from `self._observed`), forward model succeeded with binned spectrum `m`: the model's `loglike` -/
+theorem src_loglike_chain (pi : α) (obs sig : List α) (theta m wn : List (Option α)) :
+    Gen.SrcC06.nestle_loglike (α := Option α) theta (obs.map some) (sig.map some) (c0p5 := some (1 / 2)) (pi := some pi)
+        (chisq_trans := fun _ _ std => Gen.SrcC06.chisq_trans (α := Option α) (datastd := std) (final_model := m)
+          (isnan := Option.isNone) (np_nan := none) (raised_InvalidModelException := false) (spectrum := obs.map some)
+          (wavenumberGrid := wn))
+      = valOpt (loglike pi obs sig (.ok m)) := by
+  rw [src_nestle_loglike_nan, src_loglike_nan pi obs sig theta, src_nestle_loglike_nan, src_chisq]
+
+/-- … and when the forward model raises `InvalidModelException`: NaN -/
+theorem src_loglike_chain_invalid (pi : α) (obs sig : List α) (theta m wn : List (Option α)) :
+    Gen.SrcC06.nestle_loglike (α := Option α) theta (obs.map some) (sig.map some) (c0p5 := some (1 / 2)) (pi := some pi)
+        (chisq_trans := fun _ _ std => Gen.SrcC06.chisq_trans (α := Option α) (datastd := std) (final_model := m)
+          (isnan := Option.isNone) (np_nan := none) (raised_InvalidModelException := true) (spectrum := obs.map some)
+          (wavenumberGrid := wn))
+      = none := by
+  rw [src_nestle_loglike_nan]
+  rfl
 
 /-! ## the prior callbacks -/
 
